@@ -164,13 +164,13 @@ OptimisticLock::LockX()  //
 void
 OptimisticLock::UnlockS()
 {
-  lock_.fetch_sub(kSLock, kRelaxed);
+  lock_.fetch_sub(kSLock, kRelease);
 }
 
 void
 OptimisticLock::UnlockSIX()
 {
-  lock_.fetch_xor(kSIXLock, kRelaxed);
+  lock_.fetch_xor(kSIXLock, kRelease);
 }
 
 void
